@@ -19,7 +19,7 @@ func TestMain(m *testing.M) { lib.Main(m) }
 var spec = lib.Spec{
 	ID: "C05",
 	Rule: "generated dependency graphs (4-10 targets, 1-3 packages, optionally with rules defined through a subincluded wrapper) with 1-2 injected faults drawn from: failing command (exit 3), BUILD syntax error in a package (needed or not needed), " +
-		"dependency on an undefined target of an existing package, dependency on a missing package, dependency cycle through 1..n targets; built from an empty plz-out with/without --keep_going and -n in {1,4,16}, request = drawn roots. " +
+		"dependency on an undefined target of an existing package, dependency on a missing package, dependency cycle through 1..n targets, a subincluded build_defs file shared by every package that does not parse or whose producing target fails; built from an empty plz-out with/without --keep_going and -n in {1,4,16}, request = drawn roots. " +
 		"Reference computed on the model: mustFail <=> the dependency closure of the request contains an unbuildable element. Checks: plz exits non-zero <=> mustFail; no command whose (transitive) dependency is unbuildable ever starts; " +
 		"the process ends within the budget (60 s, where < 1 s or ~5-10 s for cycles is expected; exceeding it counts as a hang only if the process group then stays idle and childless for 5 s, else inconclusive); no Go panic. " +
 		"Non-trivial = a fault reachable from a requested root through >= 2 edges, or a broken package needed by >= 2 requested roots; distinct = JSON of the case",
@@ -39,16 +39,18 @@ type Case struct {
 
 func gen(t *rapid.T) Case {
 	r := lib.GenRepo(t, lib.RepoGenOpts{MinTargets: 4, MaxTargets: 10, Kinds: []string{"cat", "cat", "count", "multi", "dirn"}, NoGlob: true})
-	r.Subinclude = rapid.IntRange(0, 3).Draw(t, "subinclude") == 0
+	r.Subinclude = rapid.IntRange(0, 2).Draw(t, "subinclude") == 0
 	c := Case{R: r, KeepGoing: rapid.Bool().Draw(t, "keep_going"), Workers: rapid.SampledFrom([]int{1, 4, 16}).Draw(t, "workers")}
 	nf := rapid.SampledFrom([]int{0, 1, 1, 1, 1, 2, 2}).Draw(t, "nfaults")
-	for i := 0; i < nf; i++ {
+	for i, attempts := 0, 0; i < nf && attempts < 8; attempts++ {
+		i++
 		kind := rapid.SampledFrom([]string{"fail", "fail", "syntax", "undefined", "missing-package", "cycle", "cycle"}).Draw(t, "fault")
 		ti := rapid.IntRange(0, (len(r.Targets)-1)/2).Draw(t, "victim") // early targets have more dependents
 		tg := r.Targets[ti]
 		switch kind {
 		case "fail":
 			if tg.Kind != "genrule" {
+				i--
 				continue
 			}
 			tg.Fail = true
@@ -58,12 +60,14 @@ func gen(t *rapid.T) Case {
 			c.Faults = append(c.Faults, "syntax-error in "+tg.Pkg)
 		case "undefined":
 			if tg.Kind == "text_file" {
+				i--
 				continue
 			}
 			tg.Srcs = append(tg.Srcs, lib.RSrc{Label: "//" + tg.Pkg + ":nonexistent"})
 			c.Faults = append(c.Faults, "undefined dep of "+tg.Label())
 		case "missing-package":
 			if tg.Kind == "text_file" {
+				i--
 				continue
 			}
 			tg.Srcs = append(tg.Srcs, lib.RSrc{Label: "//nopkg:x"})
@@ -71,6 +75,7 @@ func gen(t *rapid.T) Case {
 		case "cycle":
 			// add an edge from tg to a target that (transitively) depends on tg, or to itself
 			if tg.Kind == "text_file" {
+				i--
 				continue
 			}
 			var cands []string
@@ -80,6 +85,7 @@ func gen(t *rapid.T) Case {
 				}
 			}
 			if len(cands) == 0 {
+				i--
 				continue
 			}
 			back := rapid.SampledFrom(cands).Draw(t, "back")
@@ -87,17 +93,67 @@ func gen(t *rapid.T) Case {
 			c.Faults = append(c.Faults, fmt.Sprintf("cycle %s -> %s", tg.Label(), back))
 		}
 	}
+	if r.Subinclude && rapid.IntRange(0, 2).Draw(t, "break_defs") == 0 {
+		r.BrokenDefs = rapid.SampledFrom([]string{"syntax", "build"}).Draw(t, "defs_fault")
+		c.Faults = append(c.Faults, "subinclude-"+r.BrokenDefs+" (shared by every package)")
+	}
 	ls := r.Labels()
 	n := rapid.IntRange(1, min(3, len(ls))).Draw(t, "nroots")
 	// favour late targets as roots (long dependency chains below them)
 	late := ls[len(ls)/2:]
-	if rapid.IntRange(0, 3).Draw(t, "late") > 0 {
+	// roots that reach an unbuildable origin only through >= 2 edges (the non-trivial shape)
+	var deepRoots []string
+	okm := r.Buildable()
+	for _, l := range ls {
+		if !okm[l] && faultDepth(r, l) >= 2 {
+			deepRoots = append(deepRoots, l)
+		}
+	}
+	if len(deepRoots) > 0 && rapid.IntRange(0, 2).Draw(t, "deep") > 0 {
+		n = min(n, len(deepRoots))
+		c.Req = rapid.Permutation(deepRoots).Draw(t, "roots")[:n]
+	} else if rapid.IntRange(0, 3).Draw(t, "late") > 0 {
 		n = min(n, len(late))
 		c.Req = rapid.Permutation(late).Draw(t, "roots")[:n]
 	} else {
 		c.Req = rapid.Permutation(ls).Draw(t, "roots")[:n]
 	}
 	return c
+}
+
+// faultDepth is the BFS distance from root to the nearest target that is itself faulty (failing
+// command, broken package, or a label that does not exist); -1 if none is reachable.
+func faultDepth(st *lib.Repo, root string) int {
+	type qi struct {
+		l string
+		d int
+	}
+	seen := map[string]bool{root: true}
+	q := []qi{{root, 0}}
+	for len(q) > 0 {
+		cur := q[0]
+		q = q[1:]
+		t := st.Target(cur.l)
+		if t == nil {
+			return cur.d
+		}
+		own := t.Fail
+		for _, p := range st.BrokenPkgs {
+			if p == t.Pkg {
+				own = true
+			}
+		}
+		if own {
+			return cur.d
+		}
+		for _, d := range t.Deps() {
+			if !seen[d] {
+				seen[d] = true
+				q = append(q, qi{d, cur.d + 1})
+			}
+		}
+	}
+	return -1
 }
 
 func run(c Case, o *lib.Obs) error {
@@ -151,44 +207,10 @@ func run(c Case, o *lib.Obs) error {
 			}
 		}
 	}
-	// non-triviality: distance from a root to the nearest unbuildable *origin* (a target that is itself faulty)
 	deep := false
 	for _, root := range c.Req {
-		if ok[root] {
-			continue
-		}
-		// BFS over deps, depth at which a target with own fault is found
-		type qi struct {
-			l string
-			d int
-		}
-		seen := map[string]bool{root: true}
-		q := []qi{{root, 0}}
-		for len(q) > 0 {
-			cur := q[0]
-			q = q[1:]
-			t := st.Target(cur.l)
-			if t == nil {
-				if cur.d >= 2 {
-					deep = true
-				}
-				continue
-			}
-			own := t.Fail
-			for _, p := range st.BrokenPkgs {
-				if p == t.Pkg {
-					own = true
-				}
-			}
-			if own && cur.d >= 2 {
-				deep = true
-			}
-			for _, d := range t.Deps() {
-				if !seen[d] {
-					seen[d] = true
-					q = append(q, qi{d, cur.d + 1})
-				}
-			}
+		if !ok[root] && faultDepth(st, root) >= 2 {
+			deep = true
 		}
 	}
 	for _, f := range c.Faults {
